@@ -4,7 +4,7 @@ from checks import sched_common as S
 PID = "C03"
 RULE = (
     "schedules: every access matrix with entries in {0,1,2} (thorough +3) x every bounds vector from {1,2,3,4,5,6,8} for 1-3 operands / 1-3 dims, matmul maps "
-    "under all dim permutations with single-entry perturbations and a batch dim; 9 templates (bounded, unbounded, tiled, matmul, broadcast row, rank mismatch); "
+    "under all dim permutations with single-entry perturbations and a batch dim; 13 templates (bounded, unbounded, tiled, matmul, unit spatial bounds, broadcast row, rank mismatch); "
     "extra-check subsets; ALL results of scheduler_backtrack; plus every elementary transformation (rotate/tile_dim/add_dim/clear_unused_dims/canonicalize) on "
     "every small matrix; the dart-scheduler PASS on modules of 1-3 element-wise operations and on convolution-like snax_gemmx operations in every loop order. Oracle: multiset of operand-index tuples over the whole box unchanged; tile_dim only ever called by the scheduler on dividing bounds. "
     "distinct = distinct (template, checks, schedule, #results); non-trivial = the scheduler yielded at least one schedule"
